@@ -267,10 +267,16 @@ class Ctx:
 
 
 def load_known():
+    res = []
     p = os.path.join(VERIF, "known_findings.json")
-    if not os.path.exists(p):
-        return []
-    return json.load(open(p)).get("findings", [])
+    if os.path.exists(p):
+        res += json.load(open(p)).get("findings", [])
+    d = os.path.join(VERIF, "known_findings.d")
+    if os.path.isdir(d):
+        for f in sorted(os.listdir(d)):
+            if f.endswith(".json"):
+                res += json.load(open(os.path.join(d, f))).get("findings", [])
+    return res
 
 
 def write_evidence(ctx, level, problems):
@@ -328,6 +334,7 @@ def main(argv):
     sys.path.insert(0, os.path.join(VERIF, "harness"))
     sys.path.insert(0, os.path.join(VERIF, "lib"))
     sys.path.insert(0, os.path.join(VERIF, "tools"))
+    sys.path.insert(0, REPO)   # the working tree under test wins over the editable install
     ctx = Ctx(prop, a.tier, seed)
     level = "proof"
     try:
@@ -353,7 +360,16 @@ def main(argv):
             print("INFRA-ERROR: proof audit failed for %s" % prop)
             return 2
         # 2. tie
-        mod.run(ctx)
+        try:
+            mod.run(ctx)
+        except (InfraError, subprocess.TimeoutExpired):
+            raise
+        except Exception:
+            # the harness runs clean on the unchanged tree; a crash means the code no longer behaves
+            # as the correspondence expects and no failing input was isolated
+            tb = traceback.format_exc()
+            print(tb)
+            ctx.corr_break("harness-crash", "the correspondence harness crashed while driving the real code", {"traceback": tb})
         write_evidence(ctx, level, [])
         for key, what in ctx.known_hits:
             print("KNOWN-FINDING: property=%s %s" % (prop, what))
